@@ -18,6 +18,10 @@ pub struct Ctx {
     pub cache: std::collections::HashMap<Vec<(i64, i64, i64)>, PathBuf>,
     /// build "vec" leaves as real SSTs instead of reference tables
     pub sst_leaves: bool,
+    /// build "vec" leaves as blocks with these restart intervals (bytes, pairs)
+    pub block_leaves: Option<(u32, u32)>,
+    /// options for SST leaves (restart intervals)
+    pub sst_restarts: Option<(u32, u32)>,
 }
 
 fn entries_of(v: &Value) -> Vec<(i64, i64, i64)> {
@@ -38,13 +42,34 @@ fn bound_of(v: &Value) -> Bound<Vec<u8>> {
     }
 }
 
+pub fn sst_options(ctx: &Ctx) -> SstOptions {
+    let mut o = SstOptions::default().target_block_size(4096);
+    if let Some((b, p)) = ctx.sst_restarts {
+        o = o.block(sst::block::BlockBuilderOptions::default().bytes_restart_interval(b).key_value_pairs_restart_interval(p));
+    }
+    o
+}
+
+pub fn build_block(ctx: &Ctx, entries: &[(i64, i64, i64)]) -> sst::block::Block {
+    let (b, p) = ctx.block_leaves.unwrap_or((1024, 16));
+    let mut bb = sst::block::BlockBuilder::new(sst::block::BlockBuilderOptions::default().bytes_restart_interval(b).key_value_pairs_restart_interval(p));
+    for (k, ts, v) in entries {
+        if *v == 0 {
+            bb.del(&key_bytes(*k), *ts as u64).unwrap();
+        } else {
+            bb.put(&key_bytes(*k), *ts as u64, &value_bytes(*k, *ts)).unwrap();
+        }
+    }
+    bb.seal().unwrap()
+}
+
 fn build_sst(ctx: &mut Ctx, entries: &[(i64, i64, i64)]) -> PathBuf {
     if let Some(p) = ctx.cache.get(entries) {
         return p.clone();
     }
     ctx.counter += 1;
     let path = ctx.dir.join(format!("t{}.sst", ctx.counter));
-    let mut b = SstBuilder::new(SstOptions::default(), &path).unwrap();
+    let mut b = SstBuilder::new(sst_options(ctx), &path).unwrap();
     for (k, ts, v) in entries {
         if *v == 0 {
             b.del(&key_bytes(*k), *ts as u64).unwrap();
@@ -61,6 +86,9 @@ pub fn build(ctx: &mut Ctx, x: &Value) -> Box<dyn Cursor> {
     match x["op"].as_str().unwrap() {
         "vec" => {
             let entries = entries_of(&x["s"]);
+            if ctx.block_leaves.is_some() {
+                return Box::new(build_block(ctx, &entries).cursor());
+            }
             if ctx.sst_leaves && !entries.is_empty() {
                 let path = build_sst(ctx, &entries);
                 let sst = Sst::<sst::file_manager::FileHandle>::new(SstOptions::default(), &path).unwrap();
@@ -238,6 +266,14 @@ pub fn main(args: &[String]) -> ! {
     let outdir = PathBuf::from(&args[2]);
     let prop = &args[3];
     let sst_leaves = args.iter().any(|a| a == "--sst-leaves");
+    let pair_after = |flag: &str| -> Option<(u32, u32)> {
+        args.iter().position(|a| a == flag).map(|i| {
+            let mut it = args[i + 1].split(',');
+            (it.next().unwrap().parse().unwrap(), it.next().unwrap().parse().unwrap())
+        })
+    };
+    let block_leaves = pair_after("--block-leaves");
+    let sst_restarts = pair_after("--sst-restarts");
     std::fs::create_dir_all(&scratch).ok();
     std::fs::create_dir_all(&outdir).ok();
     let (recs, bad) = read_replay_lines(input, "REPLAY");
@@ -245,11 +281,12 @@ pub fn main(args: &[String]) -> ! {
         tool_error(&format!("{bad} REPLAY lines did not parse"));
     }
     std::panic::set_hook(Box::new(|_| {}));
-    let mut ctx = Ctx { dir: scratch.clone(), counter: 0, sst_leaves, cache: Default::default() };
+    let mut ctx = Ctx { dir: scratch.clone(), counter: 0, sst_leaves, cache: Default::default(), block_leaves, sst_restarts };
     let mut rep = Report::default();
     let mut distinct = std::collections::HashSet::new();
     for rec in &recs {
         rep.evaluations += 1;
+        inflight(rec);
         let (steps, mism, dev) = replay_one(&mut ctx, rec);
         rep.steps += steps;
         distinct.insert(rec["x"].to_string());
@@ -265,6 +302,20 @@ pub fn main(args: &[String]) -> ! {
         }
         if rep.evaluations % 997 == 1 {
             rep.sample(rec.clone());
+        }
+    }
+    let (tables, badt) = read_replay_lines(input, "TABLE");
+    if badt > 0 {
+        tool_error(&format!("{badt} TABLE lines did not parse"));
+    }
+    for t in &tables {
+        rep.evaluations += 1;
+        if let Some(m) = crate::table::check_table(&mut ctx, t, &mut rep.steps) {
+            let name = format!("{}-table-{:016x}.json", prop, fxhash(&t.to_string()));
+            let path = outdir.join(name);
+            let body = json!({"property": prop, "kind": "table-facts", "table": t, "mismatch": m});
+            std::fs::write(&path, serde_json::to_string_pretty(&body).unwrap()).ok();
+            rep.violation(json!({"replay": path.to_string_lossy(), "mismatch": m, "x": t["s"]}));
         }
     }
     rep.distinct = distinct.len() as u64;
